@@ -43,8 +43,6 @@ Days(y0, m, d) == LET y == IF m <= 2 THEN y0 - 1 ELSE y0
 \* <<day, second of day>> of the UTC instant of a local time with an offset (seconds)
 Instant(y, m, d, secs, off) == LET t == secs - off + 2 * 86400 IN <<Days(y, m, d) - 2 + (t \div 86400), t % 86400>>
 
-FracLo(fr) == NatOf(IF Len(fr) >= 6 THEN SubSeq(fr, 1, 6) ELSE fr \o [i \in 1 .. 6 - Len(fr) |-> 0])
-FracHi(fr) == IF \E i \in 7 .. Len(fr) : fr[i] # 0 THEN FracLo(fr) + 1 ELSE FracLo(fr)
 OffSeconds(tz) == CASE tz[1] = "off" -> (IF tz[2] = "-" THEN 0 - 1 ELSE 1) * (tz[3] * 3600 + tz[4] * 60)
                     [] OTHER -> 0
 
@@ -68,7 +66,7 @@ ValueIs(hv, ot, ov) ==
          ELSE IF ov.aware # (hv[9][1] # "none") THEN "zone awareness"
          ELSE IF Instant(ov.y, ov.mo, ov.d, ov.h * 3600 + ov.mi * 60 + ov.s, ov.off)
                  # Instant(hv[2], hv[3], hv[4], hv[5] * 3600 + hv[6] * 60 + hv[7], OffSeconds(hv[9])) THEN "instant"
-         ELSE IF FracLo(hv[8]) <= ov.us /\ ov.us <= FracHi(hv[8]) THEN "" ELSE "microsecond"
+         ELSE IF ov.us = hv[8] THEN "" ELSE "microsecond"
     [] hv[1] = "str" -> IF ot = "str" THEN "" ELSE "type"          \* the harness compares the characters
     [] OTHER -> "type"
 
